@@ -16,6 +16,7 @@
 
 use std::{cmp, thread};
 use std::fs::{self, canonicalize, create_dir_all, read_link, File, Metadata};
+use std::os::unix::fs::MetadataExt;
 use std::path::{Path, PathBuf};
 use std::sync::Arc;
 
@@ -44,6 +45,15 @@ impl CopyHandle {
     pub fn new(from: &Path, to: &Path, config: &Arc<Config>) -> Result<CopyHandle> {
         let infd = File::open(from)?;
         let metadata = infd.metadata()?;
+
+        // Creating the destination truncates it: refuse if it is the
+        // source itself under another name (path spelling, symlink
+        // or hard link).
+        if let Ok(tometa) = to.metadata() {
+            if tometa.dev() == metadata.dev() && tometa.ino() == metadata.ino() {
+                return Err(XcpError::DestinationExists("Source and destination are the same file.", to.to_path_buf()).into());
+            }
+        }
 
         if needs_backup(to, config)? {
             let backup = get_backup_path(to)?;
